@@ -160,12 +160,15 @@ class Grammar:
                 elif isinstance(t, tuple) and t[0] == "Dic":
                     yield (t[1][0][1], ("idxv", x, "'zz'"))
                     yield (t[1][0][1], ("dattr", x, "zz"))
+                    yield (t[1][0][1], ("keyv", x, "7"))
+                    yield (t[1][0][1], ("keyv", x, "'b-jet'"))
+                    yield (t[1][0][1], ("keyv", x, "''"))
             if m >= 2:
                 for n1 in range(1, m):
                     for t, x in self.gen(ctx, n1):
                         if isinstance(t, tuple) and t[0] in ("Tup", "Lst") and len(set(t[1])) == 1:
                             for t2, sel in self.gen(ctx, m - n1):
-                                if t2 == INT and sel[0] != "const":
+                                if t2 == INT and (sel[0] != "const" or "constsel" in P):
                                     yield (t[1][0], ("idxe", x, sel))
         # ---- method calls with arguments
         if "meth" in P and m >= 2:
@@ -356,7 +359,7 @@ def binder_info(term):
 
 
 _TAGS = {"ds", "var", "attr", "meth", "const", "bin", "neg", "not", "cmp", "bool", "ifexp", "op",
-         "count", "first", "app", "tup", "lst", "dic", "idx", "key", "dattr", "idxv", "idxe", "app2"}
+         "count", "first", "app", "tup", "lst", "dic", "idx", "key", "dattr", "idxv", "idxe", "app2", "keyv"}
 
 
 def namings(term, pool):
@@ -453,7 +456,7 @@ def render(term, names):
             return f"{r(t[1], stack)}[{t[2]!r}]"
         if tag == "dattr":
             return f"{r(t[1], stack)}.{t[2]}"
-        if tag == "idxv":
+        if tag in ("idxv", "keyv"):
             return f"{r(t[1], stack)}[{t[2]}]"
         if tag == "idxe":
             return f"{r(t[1], stack)}[{r(t[2], stack)}]"
